@@ -51,10 +51,10 @@ type script struct {
 	Chunks  []chunk
 	End     endKind
 	EndGap  gap
-	Closer  bool // a second thread calls Close at an arbitrary moment
+	Closer  bool   // a second thread calls Close at an arbitrary moment
 	Release string // what a blocked reader returns once Close has been called ("" = "a")
-	Retain  bool // the consumer keeps every sequence and never hands it back
-	Delayed bool // the consumer hands a sequence back only after receiving the next one
+	Retain  bool   // the consumer keeps every sequence and never hands it back
+	Delayed bool   // the consumer hands a sequence back only after receiving the next one
 }
 
 func (s *script) release() string {
@@ -268,7 +268,14 @@ type outcome struct {
 func execute(sc *script, prefix []int) (*vsched.Result, *outcome) {
 	o := &outcome{}
 	rd := &reader{sc: sc}
-	res := vsched.Run(prefix, 4000, func(s *vsched.Sched) {
+	// step limit: far above what a short script needs; long inputs get a handful of steps per byte on top
+	limit := 4000
+	for _, c := range sc.Chunks {
+		if len(c.B) > 200 {
+			limit += 8 * len(c.B)
+		}
+	}
+	res := vsched.Run(prefix, limit, func(s *vsched.Sched) {
 		s.TimerGate = rd.timerGate
 	}, func() {
 		p := ansi.NewParser(rd)
@@ -592,6 +599,19 @@ func stateScripts(each func(sc script)) {
 	}
 }
 
+// bulk: control strings longer than any buffer or limit on the way, with every terminator and cut off by the
+// end of the input
+func bulkScripts(each func(sc script)) {
+	big := strings.Repeat("A", 70000)
+	for _, open := range []string{"\x1b]52;c;", "\x1bP1;2q", "\x1b_G", "\x1bX"} {
+		for _, term := range []string{"\x07", "\x1b\\", "\x18", ""} {
+			for _, end := range []endKind{endEOF, endErr} {
+				each(script{Chunks: []chunk{{"a" + open + big + term + "x", short}}, End: end, EndGap: short})
+			}
+		}
+	}
+}
+
 // depth: scripts explored with preemptions
 func depthScripts(each func(sc script)) {
 	bodies := [][]chunk{
@@ -734,6 +754,7 @@ func main() {
 			breadthScripts(breadthN, each(0, 0))
 			byteSplitScripts(each(1, 0))
 			stateScripts(each(1, 0))
+			bulkScripts(each(0, 0))
 			ownershipScripts(r.Pick(3, 4), each(1, 0))
 		case "depth":
 			depthScripts(each(depthBound, int64(r.Pick(400000, 4000000))))
@@ -748,7 +769,7 @@ func main() {
 	}
 	r.Finish(explore.Coverage{
 		States: -1, Transitions: r.Get("points"), Traces: ex, Evaluations: ex,
-		Rule: fmt.Sprintf("stateless exploration of thread schedules of the real ansi.Parser under the controlled scheduler (scheduling points: every channel operation, select, close, mutex operation, thread start, timer firing, reader wait). Breadth: every string of up to %d symbols over a 12-symbol alphabet, as one chunk and cut in two at every position with short / boundary / long arrival gaps, ending in EOF or a read error, all schedules without preemption (non-preemptive switches are free); byte-level chunkings of multi-byte input with <=1 preemption; states: 27 prefixes that leave the automaton in each of its states (incl. every string state with and without content, and just after ST / BEL / CAN) + ESC + silence of each length + 7 continuations, <=1 preemption; ownership: every sequence of up to %d complete control sequences out of 19 (each dispatch path that hands storage to the consumer) with a consumer that retains everything or hands back one late, <=1 preemption. Depth: 14 input bodies x end kinds x consumer modes (hand back at once / retain everything / hand back one late) x Close from a second thread with a reader that returns afterwards, all schedules with <=%d deviations (preemption, or timer fired while a thread could run). Oracle per execution: no panic, no hang, no goroutine blocked at the end, exactly one EOF marker as last item, channel closed, WaitClose returns, retained sequences unchanged, item list equal to (prefix of, with Close) a list admitted by the reference automaton for the gap pattern. distinct = (script, bound) pairs", breadthN, r.Pick(3, 4), depthBound),
+		Rule:       fmt.Sprintf("stateless exploration of thread schedules of the real ansi.Parser under the controlled scheduler (scheduling points: every channel operation, select, close, mutex operation, thread start, timer firing, reader wait). Breadth: every string of up to %d symbols over a 12-symbol alphabet, as one chunk and cut in two at every position with short / boundary / long arrival gaps, ending in EOF or a read error, all schedules without preemption (non-preemptive switches are free); byte-level chunkings of multi-byte input with <=1 preemption; bulk: OSC / DCS / APC / SOS strings of 70000 runes with each terminator and cut off by the end of the input; states: 27 prefixes that leave the automaton in each of its states (incl. every string state with and without content, and just after ST / BEL / CAN) + ESC + silence of each length + 7 continuations, <=1 preemption; ownership: every sequence of up to %d complete control sequences out of 19 (each dispatch path that hands storage to the consumer) with a consumer that retains everything or hands back one late, <=1 preemption. Depth: 14 input bodies x end kinds x consumer modes (hand back at once / retain everything / hand back one late) x Close from a second thread with a reader that returns afterwards, all schedules with <=%d deviations (preemption, or timer fired while a thread could run). Oracle per execution: no panic, no hang, no goroutine blocked at the end, exactly one EOF marker as last item, channel closed, WaitClose returns, retained sequences unchanged, item list equal to (prefix of, with Close) a list admitted by the reference automaton for the gap pattern. distinct = (script, bound) pairs", breadthN, r.Pick(3, 4), depthBound),
 		Exhaustive: r.Get("scripts_capped") == 0,
 		Bounds: map[string]any{"breadth_symbols": breadthN, "deviation_bound": depthBound, "scripts": r.Get("scripts"), "scripts_capped": r.Get("scripts_capped"),
 			"scripts_with_several_outcomes": r.Get("scripts_with_several_outcomes"), "step_limit": 4000},
